@@ -120,6 +120,9 @@ def mirror(t, step):
     node['items'] = [it for it in node['items'] if it[0] != c['key']]
   elif n == 'append':
     node['items'].append([len(node['items']), c['v']])
+  elif n == 'extend':
+    for v in c['vs']:
+      node['items'].append([len(node['items']), v])
   elif n == 'rebind':
     for p, v in c['pairs']:
       mirror_write(get_at(node, p[:-1]), p[-1], v)
@@ -265,6 +268,12 @@ def do_call(node, c):
     del node[c['key']]
   elif n == 'append':
     node.append(plain(c['v']))
+  elif n == 'extend':
+    if c.get('via') == 'iadd':
+      import operator
+      operator.iadd(node, [plain(v) for v in c['vs']])
+    else:
+      node.extend([plain(v) for v in c['vs']])
   elif n == 'rebind':
     node.rebind({pg.KeyPath(list(p)): plain(v) for p, v in c['pairs']})
   elif n == 'update':
@@ -363,7 +372,7 @@ class Gen:
     if kind == 'dict':
       choices += [(2, 'delkey'), (2, 'update'), (1, 'clear'), (1, 'popitem')]
     if kind == 'list':
-      choices += [(2, 'append'), (1, 'clear'), (1, 'reverse')]
+      choices += [(2, 'append'), (3, 'extend'), (1, 'clear'), (1, 'reverse')]
     name = r.weighted(choices)
     if name == 'setkey':
       k, old = self.target(node)
@@ -375,6 +384,8 @@ class Gen:
       return {'name': 'delkey', 'key': r.choice(keys) if keys and r.chance(0.9) else 'zz'}
     if name == 'append':
       return {'name': 'append', 'v': self.value()}
+    if name == 'extend':
+      return {'name': 'extend', 'via': r.choice(['extend', 'iadd']), 'vs': [self.value() for _ in range(r.randint(0, 3))]}
     if name == 'update':
       ks = r.sample(DKEYS, r.randint(1, 3))
       return {'name': 'update', 'kvs': [[k, self.value(get_at(node, [k]))] for k in ks]}
@@ -480,6 +491,8 @@ class C09(Prop):
       yield g.case()
     for c in self.facts_cases(rng, 150 if tier == 'quick' else 3000):
       yield c
+    for c in self.detached_cases(rng, 200 if tier == 'quick' else 4000):
+      yield c
 
   def facts_cases(self, rng, n):
     g = Gen(rng)
@@ -517,6 +530,43 @@ class C09(Prop):
       if steps:
         yield {'tree': t0, 'steps': steps, 'facts_only': True}
 
+  def detached_cases(self, rng, n):
+    """Oracle-only: a symbolic child is removed / replaced (del, pop via del, rebind, setkey, list
+    setitem), the harness keeps a reference to it and mutates it afterwards: nobody in the tree it
+    was removed from may be notified, and the tree's facts stay fresh."""
+    g = Gen(rng)
+    made = 0
+    for _ in range(n * 8):
+      if made >= n:
+        break
+      g.next_id = 1
+      g.no_obj = rng.chance(0.5)
+      t = g.tree(rng.randint(2, 3), rng.choice(['dict', 'list', 'obj']), 1.0)
+      cands = [(p, x) for p, x in all_nodes(t) if p and is_node(x)]
+      if not cands:
+        continue
+      path, child = rng.choice(cands)
+      parent = get_at(t, path[:-1])
+      k = path[-1]
+      how = rng.choice(['delkey', 'setkey', 'rebind'] if parent['k'] == 'dict' else ['setkey', 'rebind'])
+      if how == 'delkey':
+        c1 = {'name': 'delkey', 'key': k}
+      elif how == 'setkey':
+        c1 = {'name': 'setkey', 'key': k, 'v': g.atom()}
+      else:
+        c1 = {'name': 'rebind', 'pairs': [[[k], g.atom()]]}
+      inner = all_nodes(child)
+      ipath, inode = rng.choice(inner)
+      k2, old = g.target(inode)
+      if k2 is None:
+        c2 = {'name': 'append', 'v': g.atom()}
+      else:
+        c2 = {'name': 'setkey', 'key': k2, 'v': g.value(old)}
+      made += 1
+      yield {'tree': t, 'facts_only': True, 'steps': [
+          {'recv': path[:-1], 'notify': True, 'call': c1, 'keep': path},
+          {'recv': ipath, 'notify': True, 'call': c2, 'detached': 0}]}
+
   def model_request(self, case):
     if case.get('facts_only'):
       return None
@@ -530,16 +580,20 @@ class C09(Prop):
     root = build(case['tree'])
     read_all(root)
     outs = []
+    kept = []
     for step in case['steps']:
       pre = canon(root)
       del LOG[:]
       ok = True
       err = None
+      if 'keep' in step:
+        kept.append(navigate(root, step['keep']))
+      base_node = kept[step['detached']] if 'detached' in step else root
       with contextlib.ExitStack() as stack:
         if not step['notify']:
           stack.enter_context(pg.notify_on_change(False))
         try:
-          do_call(navigate(root, step['recv']), step['call'])
+          do_call(navigate(base_node, step['recv']), step['call'])
         except Exception as e:    # pylint: disable=broad-except
           ok = False
           err = type(e).__name__
@@ -603,6 +657,17 @@ class C09(Prop):
       return {'signature': sig,
               'what': 'after %s (notify=%s) the memoised facts %s differ from a fresh computation on the '
                       'JSON round-tripped copy' % (json.dumps(step['call'])[:200], step['notify'], o['stale'][:3])}
+    if 'detached' in step:
+      kept_step = [s for s in case['steps'] if 'keep' in s][step['detached']]
+      sub = get_at(case['tree'], kept_step['keep'])
+      inside = {n['id'] for _, n in all_nodes(sub)}
+      outsiders = [e['recv'] for e in o['events'] if e['recv'] not in inside]
+      if outsiders:
+        return {'signature': 'event-from-detached-subtree',
+                'what': 'a value removed from the tree by %s was mutated afterwards (%s) and nodes %s of its '
+                        'former tree were notified' % (json.dumps(kept_step['call'])[:120],
+                                                       json.dumps(step['call'])[:120], outsiders)}
+      return None
     if case.get('facts_only'):
       return None
     # contract ------------------------------------------------------------------------------
@@ -677,6 +742,9 @@ class C09(Prop):
       return [r + [c['key']]]
     if c['name'] == 'append':
       return [r + [len(get_at(tree, r)['items'])]]
+    if c['name'] == 'extend':
+      n0 = len(get_at(tree, r)['items'])
+      return [r + [n0 + i] for i in range(len(c['vs']))]
     if c['name'] == 'rebind':
       return [r + p for p, _ in c['pairs']]
     if c['name'] == 'update':
